@@ -321,6 +321,15 @@ class Harness:
         if report is not None and report.get('type') == 'paused':
             us_alive = _us(w, case)
             try:
+                if case.get('double'):
+                    # a first request that does not wait, then a second one: the second exception lands wherever the child is by then
+                    try:
+                        w.terminate(timeout=0, force=False)
+                    except BaseException as e:  # noqa
+                        obs['first_term_raised'] = type(e).__name__
+                    if st is not None:
+                        st.go.set()
+                    time.sleep(case.get('double_gap', 0.0))
                 tkw = {'timeout': case.get('term_timeout', 3)}
                 if case.get('remote_timeout') and kind == 'remote':
                     tkw['remote_timeout'] = case['remote_timeout']
